@@ -657,6 +657,57 @@ func cmdLang(args []string) {
 			}
 		}
 	}
+	// one value code of a valid vector respelled in another upper/lower-case mix ("E:PoC", "AV:n"): the only defect is that
+	// value, whatever a lenient parser makes of it
+	for k := 0; k < 4; k++ {
+		caseVariants := func(code string) []string {
+			var out []string
+			for m := 1; m < 1<<uint(len(code)) && len(code) <= 4; m++ {
+				b := []byte(code)
+				for j := range b {
+					if m&(1<<uint(j)) != 0 {
+						b[j] = strings.ToLower(string(b[j]))[0]
+					}
+				}
+				if string(b) != code {
+					out = append(out, string(b))
+				}
+			}
+			return out
+		}
+		if *fam == "v3" {
+			var v v3Vec
+			for i := 0; i < v3N; i++ {
+				v[i] = uint8(rng.Intn(len(v3Defs[i].Codes)))
+			}
+			ver := v3Versions[k%2].Label
+			toks := v3Tokens(&v, 22, 0)
+			for i := 0; i < v3N; i++ {
+				for _, cv := range caseVariants(v3Defs[i].Codes[v[i]].Code) {
+					t := append([]string(nil), toks...)
+					t[i] = v3Defs[i].Name + ":" + cv
+					inputs = append(inputs, v3Join(ver, t))
+				}
+			}
+		} else {
+			var v v2Vec
+			for i := 0; i < v2N; i++ {
+				v[i] = uint8(rng.Intn(len(v2Defs[i].Codes)))
+			}
+			for i := 0; i < v2N; i++ {
+				for c := range v2Defs[i].Codes {
+					w := v
+					w[i] = uint8(c)
+					full := strings.Split(v2String(&w, true, true), "/")
+					for _, cv := range caseVariants(v2Defs[i].Codes[c].Code) {
+						t := append([]string(nil), full...)
+						t[i] = v2Defs[i].Name + ":" + cv
+						inputs = append(inputs, strings.Join(t, "/"))
+					}
+				}
+			}
+		}
+	}
 	// vectors of extreme length: every metric takes one of its LONGEST (or shortest) value codes at once -- a buffer or
 	// length bound derived from "typical" codes shows only there.  All combinations of the longest codes, capped.
 	{
